@@ -229,7 +229,7 @@ impl Context {
         *expr = expr.trim_start();
     }
 
-    fn eval_term(&self, expr: &mut &str, line: u32) -> Result<bool, Error> {
+    fn eval_term(&self, expr: &mut &str, line: u32) -> Result<i64, Error> {
         self.skip_whitespace(expr);
 
         let index = expr
@@ -253,7 +253,18 @@ impl Context {
             })?
             .is_ascii_digit()
         {
-            Ok(term == "1")
+            // The value of the number (any non-zero value holds, and == compares values)
+            let value = if let Some(hex) = term.strip_prefix("0x").or_else(|| term.strip_prefix("0X")) {
+                i64::from_str_radix(hex, 16)
+            } else {
+                term.parse::<i64>()
+            };
+            value.map_err(|_| Error::Syntax {
+                filename: self.current_filename.clone(),
+                included_in: self.includes_stack.last().cloned(),
+                line,
+                msg: "Malformed number".to_string(),
+            })
         } else {
             let filename = self.current_filename.clone();
             let included_in = self.includes_stack.last().cloned();
@@ -265,29 +276,32 @@ impl Context {
             })
         }
     }
-    fn eval_unary(&self, expr: &mut &str, line: u32) -> Result<bool, Error> {
-        let mut negate = false;
+    fn eval_unary(&self, expr: &mut &str, line: u32) -> Result<i64, Error> {
+        let mut negations = 0;
         self.skip_whitespace(expr);
         while expr.starts_with('!') {
             *expr = &expr[1..];
-            negate = !negate;
+            negations += 1;
             self.skip_whitespace(expr);
         }
-
-        Ok(negate ^ self.eval_term(expr, line)?)
+        let mut value = self.eval_term(expr, line)?;
+        for _ in 0..negations {
+            value = (value == 0) as i64;
+        }
+        Ok(value)
     }
-    fn eval_eq(&self, expr: &mut &str, line: u32) -> Result<bool, Error> {
+    fn eval_eq(&self, expr: &mut &str, line: u32) -> Result<i64, Error> {
         let mut result = self.eval_unary(expr, line)?;
         self.skip_whitespace(expr);
         while expr.starts_with("==") {
             *expr = &expr[2..];
-            result ^= !self.eval_unary(expr, line)?;
+            result = (result == self.eval_unary(expr, line)?) as i64;
             self.skip_whitespace(expr);
         }
         Ok(result)
     }
     fn evaluate(&self, mut expr: &str, line: u32) -> Result<bool, Error> {
-        let result = self.eval_eq(&mut expr, line)?;
+        let result = self.eval_eq(&mut expr, line)? != 0;
         self.skip_whitespace(&mut expr);
         if !expr.is_empty() {
             let filename = self.current_filename.clone();
